@@ -179,6 +179,12 @@ func computeYear(lunar *Lunar) {
 			gExact++
 			zExact++
 		}
+	} else {
+		// the lunar year already leads the civil year (December days after an early lunar new year): still the Lichun year of the civil year
+		g--
+		z--
+		gExact--
+		zExact--
 	}
 
 	if g < 0 {
